@@ -119,6 +119,7 @@ class LedgerBase:
         self.n_user_unwinds = 0
         self.n_cancel_edges = 0
         self.touched = set()      # bodies in which a ledger event occurs
+        self._drop_bodies = None
 
     # ---- hooks ------------------------------------------------------------------------------------------------
     def is_local(self, b):
@@ -159,12 +160,26 @@ class LedgerBase:
         self.n_events += 1
         self.touched.add(b.path)
 
+    def drop_bodies(self):
+        """{adt path: Drop::drop body} for the types of the modelled module that implement Drop: dropping an owning local of
+        such a type runs that body (an RAII guard introduced by a refactoring is followed like a call)"""
+        if self._drop_bodies is None:
+            d = {}
+            for b in self.prog.bodies.values():
+                if b.j.get('impl_trait') == 'std::ops::Drop' and self.is_local(b):
+                    d[adt_of(b.j.get('impl_self', ''))] = b
+            self._drop_bodies = d
+        return self._drop_bodies
+
     def tracked(self, b):
         out = {}
+        db = self.drop_bodies()
         for i, l in enumerate(b.locals):
             k = self.kind_of_ty(l['ty'])
             if k:
                 out[i] = k
+            elif not l['ty'].startswith(('&', '*')) and adt_of(l['ty']) in db and db[adt_of(l['ty'])].path != b.path:
+                out[i] = 'dropper:' + adt_of(l['ty'])
         return out
 
     def local_callee(self, t):
@@ -517,13 +532,22 @@ class LedgerBase:
                             note2 = (note2 + ', ' if note2 else '') + pn + ' (dropped unexamined)'
                         if l in ini2 and l in tr and tr[l].startswith('opt') and _var_of(fl, l) == 'None':
                             ini2.discard(l)               # known to be None on this path
-                        if l in ini2 and l in tr:
+                        dvecs = None
+                        if l in ini2 and l in tr and tr[l].startswith('dropper:'):
+                            dsum = self.summary(self.drop_bodies()[tr[l][8:]])
+                            dvecs = sorted(dsum['return']) or [ZERO]
+                            note2 = (note2 + ', ' if note2 else '') + 'Drop of %s' % tr[l][8:].split('::')[-1]
+                            ini2.discard(l)
+                        elif l in ini2 and l in tr:
                             de = self.drop_effect(tr[l])
                             self._ev(b)
                             if de is not None:
                                 v2 = vadd(v2, de[0])
                                 note2 = (note + ', ' if note else '') + de[1]
                             ini2.discard(l)
+                        if dvecs is not None and dvecs != [ZERO]:
+                            self._ev(b)
+                            cancels = [vadd(c_, d_) for c_ in cancels for d_ in dvecs] if cancels != [ZERO] else dvecs
                         hit = [(ll, cp, pd) for (ll, cp, pd) in lf2 if ll == l]
                         if hit:
                             lf2 -= set(hit)
